@@ -618,6 +618,48 @@ theorem hydrate_uses_filters_in_force (w : World) (rank : Comp → Nat) (hr : ra
   obtain ⟨k, hk, hi⟩ := kept_matches _ _ l hl
   exact ⟨k, hi, (get_is_union w rank hr ops spec k).mp hk⟩
 
+/-! ### filterable is decided by the registry points above the datasource, for every provider kind -/
+
+/-- **one rule for all provider kinds** (`construct` models FileProvider and CommandOutputProvider
+construction alike): a provider counts as filterable iff filtering is enabled and SOME registry point
+found by walking up from its datasource — directly bound, an alternative inside first_of([...]),
+below head() / foreach_execute, any number of levels — is filterable.  No attribute of the datasource
+object itself takes part. -/
+theorem filterable_by_registry_points (w : World) (rank : Comp → Nat) (hr : rankedBy w rank = true)
+    (ds : Comp) :
+    specFilterable w ds = true ↔
+      w.enabled = true ∧ ∃ p, PointAbove w ds p ∧ (w.node p).pointFilterable = true := by
+  have hf : ds < w.nodes.length → rank ds < w.fuel := by
+    intro hc
+    have := (ranked_spec w rank hr ds hc).1
+    unfold World.fuel; omega
+  unfold specFilterable
+  simp only [Bool.and_eq_true, List.any_eq_true]
+  constructor
+  · rintro ⟨he, p, hp, hpf⟩
+    exact ⟨he, p, (regPoints_spec w rank hr p w.fuel ds hf).mp hp, hpf⟩
+  · rintro ⟨he, p, hp, hpf⟩
+    exact ⟨he, p, (regPoints_spec w rank hr p w.fuel ds hf).mpr hp, hpf⟩
+
+/-- so a NESTED datasource of a filterable spec with no filter registered anywhere it can see is
+refused on a host exactly like a directly bound one (NoFilterException at construction: the command
+is never run, the file never read) -/
+theorem nested_not_collected_without_filters (w : World) (rank : Comp → Nat) (hr : rankedBy w rank = true)
+    (ops : List Op) (ds p : Comp) (he : w.enabled = true) (hp : PointAbove w ds p)
+    (hpf : (w.node p).pointFilterable = true) (hnone : ∀ d k, Reach w ds d → ¬ Registered w ops d k) :
+    (construct w (run w ops) true ds).2 = Built.noFilter :=
+  no_filters_no_collection w rank hr ops ds
+    ((filterable_by_registry_points w rank hr ds).mpr ⟨he, p, hp, hpf⟩) hnone
+
+/-- and with filters its command output is grep-filtered: every line contains a filter string in
+force for the datasource and every line of the output containing one is kept -/
+theorem command_output_filtered (fs : Allow) (output : List Str) (hfs : fs ≠ []) :
+    (commandContent grepF fs output).Sublist output ∧
+    ∀ l, l ∈ commandContent grepF fs output ↔ l ∈ output ∧ ∃ k ∈ keys fs, isInfix k l = true := by
+  have he : fs.isEmpty = false := by cases fs with | nil => exact absurd rfl hfs | cons _ _ => rfl
+  simp only [commandContent, he, Bool.false_eq_true, if_false]
+  exact grepF_spec (keys fs) output
+
 /-! ## non-vacuity -/
 
 def exAllow : Allow := [("a".toList, 1), ("b".toList, 2)]
@@ -649,6 +691,16 @@ example : FirstDs exWorld 2 0 := FirstDs.step (by decide) (by decide) (FirstDs.h
 example : Reach exWorld 1 0 := Reach.step (by decide) (by decide) (Reach.here (by decide))
 example : filterContent exLines [("a".toList, 6), ("b".toList, 7)] = grepF ["a".toList, "b".toList] exLines := by decide
 example : specFilterable exWorld 1 = true := by decide
+-- a command alternative (3) inside first_of (2) bound to the filterable point (0): two levels below, still filterable
+def nestedWorld : World :=
+  ⟨[⟨true, true, false, false, true, true, [2], []⟩, ⟨false, false, false, false, false, false, [], []⟩,
+    ⟨true, true, false, false, false, true, [3], [0]⟩, ⟨true, false, false, false, false, false, [], [2]⟩], true⟩
+example : rankedBy nestedWorld (fun c => if c = 3 then 2 else if c = 2 then 1 else 0) = true := by decide
+example : PointAbove nestedWorld 3 0 :=
+  PointAbove.step (d := 2) (by decide) (by decide) (PointAbove.step (d := 0) (by decide) (by decide) (PointAbove.here (by decide)))
+example : specFilterable nestedWorld 3 = true := by decide
+example : (construct nestedWorld (run nestedWorld []) true 3).2 = Built.noFilter := by decide
+example : (construct nestedWorld (run nestedWorld [.add 0 (some ["x".toList]) (some 5)]) true 3).2 = Built.ok true [("x".toList, 5)] := by decide
 -- an archive written under the old filter "a", hydrated when only "b" is in force: list and single branch alike
 example : hydrateResults 1000 [("b".toList, 5)] (.multi [["a".toList, "ab".toList], ["a".toList]]) = [["ab".toList], []] := by decide
 example : hydrateResults 1000 [("b".toList, 5)] (.single ["a".toList, "ab".toList]) = [["ab".toList]] := by decide
